@@ -308,7 +308,7 @@ func init() {
 			Rule: "CNF over n<=10 declared variables via ParseSliceNb/ParseCNF: no constraint, tautologies only, fully decided by units, sparse random formulas with odd clause shapes and unused variables" + tail},
 		vf.Sub[Case]{Name: "cnf-conflict-rich", Quick: 400, Thorough: 5000, Gen: genHardCNF, Check: check, Floor: 0.5,
 			Classes: map[string]float64{"conflicts>0": 0.5, "models>=16": 0.3},
-			Rule: "3-SAT at ratio 3.0..4.2 and parity systems with n-9..n-3 constraints, n in 12..18: many models and real conflicts during enumeration" + tail},
+			Rule:    "3-SAT at ratio 3.0..4.2 and parity systems with n-9..n-3 constraints, n in 12..18: many models and real conflicts during enumeration" + tail},
 		vf.Sub[GuardedCase]{Name: "guarded-pigeonhole", Quick: 16, Thorough: 200, Gen: genGuarded, Check: checkGuarded, Floor: 0,
 			Rule: "pigeonhole PHP(6,5)/PHP(7,6) guarded by a variable g (g -> PHP, not g -> all pigeonhole variables false), one unit clause and 0..3 free variables: exactly 2^e models by construction; CountModels or Enumerate(chan) must refute PHP under g = true in the middle of the enumeration (hundreds of conflicts, restarts, reductions with a lowered limit); non-trivial = >=100 conflicts"},
 		vf.Sub[Case]{Name: "card", Quick: 8000, Thorough: 100000, Gen: genPB("card"), Check: check, Floor: 0.15,
